@@ -185,6 +185,36 @@ def monitor(ck, sc, r):
     return bad
 
 
+def gate_error_scenarios(base_id):
+    """A member blocked in getone() (as `async for` is) with prefetched records buffered while a rebalance begins, and
+    the coordinator answers its JoinGroup / SyncGroup of that rebalance with an error that is raised to the
+    application (not retried): the blocked call must raise or keep waiting - never return a buffered record of the
+    partitions it has just revoked."""
+    out = []
+    k = base_id
+    for api, nths in (("JoinGroup", (3, 4)), ("SyncGroup", (2,))):
+        for nth in nths:
+            for code in (30, 23):
+                for t1 in (0.4, 0.9):
+                    cons = []
+                    for i, (delay, life) in enumerate(((0, 7.0), (t1, 6.0))):
+                        cons.append({"name": f"c{i}", "group": "g", "topics": ["t0"], "assignors": ["range"],
+                                     "auto_commit": True, "auto_commit_interval_ms": 300, "cb_delay": 0.01,
+                                     "consume_api": "getone" if i == 0 else "getmany", "listener_kind": "async",
+                                     "program": [["sleep", delay], ["start"], ["consume", life, 0.5, None, 0.1 if i == 0 else 0],
+                                                 ["stop"]]})
+                    out.append({"id": k, "seed": k, "brokers": 1, "topics": {"t0": 2},
+                                "preload": {"t0": {"0": 12, "1": 12}}, "consumers": cons, "cluster_events": [],
+                                "faults": {"apis": conssim.GROUP_APIS, "plan": {}},
+                                "api_faults": [{"client": "c0", "api": api, "nth": nth, "kind": "error", "code": code}],
+                                # slow JoinGroup / SyncGroup round trips: the revoke window is wide enough for the
+                                # application's next getone() to park on the rebalance gate before the reply arrives
+                                "api_latency": {"JoinGroup": 0.25, "SyncGroup": 0.2},
+                                "coordinator": 0, "max_vtime": 600.0, "family": "blocked-getone-coordinator-error"})
+                    k += 1
+    return out
+
+
 def run(ck: Check):
     ck.trusted += [
         "Coq 8.16.1 kernel; vm_compute for trace replay and Examples",
@@ -201,6 +231,7 @@ def run(ck: Check):
     rng = random.Random(ck.seed * 31337 + 5)
     n = ck.n(48, 800)
     scs = [conssim.gen_scenario(rng, i) for i in range(n)]
+    scs += gate_error_scenarios(500000)
     results = conssim.run_scenarios(scs, timeout=ck.n(900, 3000))
     traces = []
     nbad = 0
